@@ -1,10 +1,190 @@
-(* Property C16 — theorems only.  Model: Model/C16_ObjGraph.v *)
+(* Property C16 — theorems only.  Model: Model/C16_ObjGraph.v (deap/creator.py, deap/base.py Toolbox and
+   Fitness.__deepcopy__, deap/gp.py PrimitiveTree.__deepcopy__, CPython's deepcopy/pickle memo protocol).
+
+   Vocabulary.  A heap is a list of objects {kind; class; items; attributes}; a value is an atom (immutable),
+   a builtin type, or a reference.  "unfold stop k h v" is everything that can be read from v down to depth k
+   (objects whose kind satisfies stop are not entered: their identity is read instead); equality of the
+   unfoldings at every depth is equality of content, fitness values and validity, and attributes, however
+   deep and however shared or cyclic the graph is.  "reach stop h v x": location x can be reached from v.
+   is_class stops at created classes (what a clone shares on purpose); no_stop goes through everything.
+   deep_ok h (decidable: deep_okb): references stay inside the heap, the class of every object is a class,
+   a fitness holds numbers and carries nothing but its values (and constraint_violation). *)
 From Coq Require Import List ZArith Bool Arith.
 From DV Require Import Model.C16_ObjGraph Proofs.C16_ObjGraph.
 Import ListNotations.
 
+(* ---- creator: per-instance attributes are freshly constructed ---- *)
+(* everything reachable from a per-instance attribute of a new instance was allocated by that very call
+   (location > the instance itself), or is a class *)
+Theorem C16_fresh_attrs : forall fuel h c items h' s o,
+  new_inst fuel h c items = Some (h', Ref s) -> nth_error h' s = Some o ->
+  s = length h /\ ext h h' /\
+  forall n v x, In (n, v) (o_attrs o) -> reach is_class h' v x -> length h < x < length h' \/ class_at h' x.
+Proof. exact fresh_attrs. Qed.
+Print Assumptions C16_fresh_attrs.
+
+(* hence never shared with any other (older) object: what both reach is a class *)
+Theorem C16_fresh_attrs_not_shared : forall fuel h c items h' s o older,
+  closed h -> inside h older ->
+  new_inst fuel h c items = Some (h', Ref s) -> nth_error h' s = Some o ->
+  forall n v x, In (n, v) (o_attrs o) -> reach is_class h' v x -> reach is_class h' older x -> class_at h' x.
+Proof. exact fresh_attrs_two. Qed.
+Print Assumptions C16_fresh_attrs_not_shared.
+
+(* ---- toolbox.clone ---- *)
+(* the original is untouched (ext), the copy reads the same at every depth, everything the copy reaches is
+   new or a class, and the new heap satisfies the hypotheses again *)
+Theorem C16_clone : forall h v h' v',
+  deep_ok h -> inside h v -> deepcopy h v = Some (h', v') ->
+  ext h h' /\ deep_ok h' /\ inside h' v' /\
+  (forall k, unfold is_class k h' v' = unfold is_class k h v) /\
+  (forall x, reach is_class h' v' x -> length h <= x < length h' \/ class_at h x) /\
+  (forall x, reach is_class h' v x -> x < length h /\ reach is_class h v x).
+Proof. exact deepcopy_spec. Qed.
+Print Assumptions C16_clone.
+
+(* a write through either one (at a location that is not a class) never changes what the other reads *)
+Theorem C16_clone_frame : forall h v h' v',
+  deep_ok h -> inside h v -> deepcopy h v = Some (h', v') ->
+  forall x m k,
+    (reach is_class h' v' x -> ~ class_at h x ->
+       unfold is_class k (mutate h' x m) v = unfold is_class k h v) /\
+    (reach is_class h' v x -> ~ class_at h x ->
+       unfold is_class k (mutate h' x m) v' = unfold is_class k h v).
+Proof. exact clone_frame_mutate. Qed.
+Print Assumptions C16_clone_frame.
+
+(* clone-of-clone chains of any length and shape: all members read the same and any two share classes only *)
+Theorem C16_clone_chain : forall picks h v h' vs',
+  deep_ok h -> inside h v -> clone_chain h [v] picks = Some (h', vs') ->
+  deep_ok h' /\
+  (forall w, In w vs' -> forall k, unfold is_class k h' w = unfold is_class k h v) /\
+  (forall i j a b x, i <> j -> nth_error vs' i = Some a -> nth_error vs' j = Some b ->
+     reach is_class h' a x -> reach is_class h' b x -> class_at h' x).
+Proof.
+  intros picks h v h' vs' Ok Hv H.
+  destruct (clone_chain_family picks h [v] _ h' vs' (family_single h v Ok Hv) H) as [A B C].
+  split; [exact A|split; [|exact C]]. intros w Iw. apply (B w Iw).
+Qed.
+Print Assumptions C16_clone_chain.
+
+(* cloning terminates (no RecursionError) on whatever reads finitely, and so does any chain *)
+Theorem C16_clone_terminates : forall h v d,
+  nocut (unfold is_class d h v) = true -> d <= length h -> exists r, deepcopy h v = Some r.
+Proof. exact deepcopy_total. Qed.
+Print Assumptions C16_clone_terminates.
+
+Theorem C16_clone_chain_terminates : forall picks h v d,
+  deep_ok h -> inside h v -> nocut (unfold is_class d h v) = true -> d <= length h -> picks_ok 1 picks ->
+  exists r, clone_chain h [v] picks = Some r.
+Proof.
+  intros picks h v d Ok Hv N L P.
+  exact (clone_chain_total picks h [v] _ d (family_single h v Ok Hv) N L P).
+Qed.
+Print Assumptions C16_clone_chain_terminates.
+
+(* ---- pickle.loads(pickle.dumps(x)) ---- *)
+(* same interpreter: classes included, everything reachable from the result is new *)
+Theorem C16_pickle_roundtrip : forall h v h' v',
+  closed h -> inside h v -> pickle_roundtrip h v = Some (h', v') ->
+  ext h h' /\ closed h' /\ inside h' v' /\
+  (forall k, unfold no_stop k h' v' = unfold no_stop k h v) /\
+  (forall x, reach no_stop h' v' x -> length h <= x < length h') /\
+  (forall x, reach no_stop h' v x -> x < length h /\ reach no_stop h v x).
+Proof. exact pickle_roundtrip_spec. Qed.
+Print Assumptions C16_pickle_roundtrip.
+
+Theorem C16_pickle_frame : forall h v h' v',
+  closed h -> inside h v -> pickle_roundtrip h v = Some (h', v') ->
+  forall x m k,
+    (reach no_stop h' v' x -> unfold no_stop k (mutate h' x m) v = unfold no_stop k h v) /\
+    (reach no_stop h' v x -> unfold no_stop k (mutate h' x m) v' = unfold no_stop k h v).
+Proof. exact pickle_frame_mutate. Qed.
+Print Assumptions C16_pickle_frame.
+
+(* fresh interpreter: a self-contained heap that reads the same, classes (by name, base and dct) included *)
+Theorem C16_pickle_fresh : forall h v h' v',
+  pickle_fresh h v = Some (h', v') ->
+  closed h' /\ inside h' v' /\ (forall k, unfold no_stop k h' v' = unfold no_stop k h v).
+Proof. exact pickle_fresh_spec. Qed.
+Print Assumptions C16_pickle_fresh.
+
+Theorem C16_pickle_terminates : forall h v d,
+  nocut (unfold no_stop d h v) = true -> d <= length h ->
+  (exists r, pickle_roundtrip h v = Some r) /\ (exists r, pickle_fresh h v = Some r).
+Proof. exact pickle_total. Qed.
+Print Assumptions C16_pickle_terminates.
+
+(* the hypotheses are decidable; the correspondence evaluates these checks on every real object graph *)
+Theorem C16_hypotheses_decidable : forall h v,
+  (deep_okb h = true -> deep_ok h) /\ (closedb h = true -> closed h) /\ (insideb h v = true -> inside h v).
+Proof. intros h v. split; [apply deep_okb_sound|split; [apply closedb_sound|apply insideb_sound]]. Qed.
+Print Assumptions C16_hypotheses_decidable.
+
+(* ---- Toolbox aliases ---- *)
+(* calling the alias with (a, k) calls the function with positional frozen ++ a and the frozen keywords
+   overridden by k *)
 Theorem C16_alias_call : forall t a f fa fk args kw,
   tb_get (register t a f fa fk) a = Some (FPartial f fa fk) /\
   call (FPartial f fa fk) args kw = call f (fa ++ args) (kw_merge fk kw).
 Proof. exact alias_call. Qed.
 Print Assumptions C16_alias_call.
+
+(* decorate keeps the frozen arguments, wraps the function by the decorators in order, touches no other alias *)
+Theorem C16_decorate_keeps : forall t a f fa fk ds t',
+  tb_get t a = Some (FPartial f fa fk) -> decorate t a ds = Some t' ->
+  tb_get t' a = Some (FPartial (fold_left (fun g d => FDec d g) ds f) fa fk) /\
+  (forall b, b <> a -> tb_get t' b = tb_get t b) /\
+  forall args kw, call (FPartial (fold_left (fun g d => FDec d g) ds f) fa fk) args kw =
+                  call (fold_left (fun g d => FDec d g) ds f) (fa ++ args) (kw_merge fk kw).
+Proof. exact decorate_keeps. Qed.
+Print Assumptions C16_decorate_keeps.
+
+Theorem C16_register_unregister : forall t a b f fa fk,
+  (a <> b -> tb_get (register t a f fa fk) b = tb_get t b) /\
+  (forall t', unregister t a = Some t' -> tb_get t' a = None /\ forall c, c <> a -> tb_get t' c = tb_get t c).
+Proof. intros. split; [apply register_other|apply unregister_spec]. Qed.
+Print Assumptions C16_register_unregister.
+
+(* an alias pickles exactly when it is undecorated and what it wraps pickles *)
+Theorem C16_alias_picklable : forall ok f fa fk ds,
+  picklable ok (FPartial (fold_left (fun g d => FDec d g) ds f) fa fk) =
+  match ds with [] => picklable ok f | _ => false end.
+Proof. exact picklable_alias. Qed.
+Print Assumptions C16_alias_picklable.
+
+(* ---- non-vacuity: a class with a per-instance fitness and strategy and a class-level list; an individual
+   whose strategy holds a nested list also referenced by a second attribute ---- *)
+Definition ex_heap : heap :=
+  [ mkobj KClass (Atom 1) [Atom 7] [(51, Atom 7000)];                               (* 0: fitness class *)
+    mkobj KPyList (BType 0) [Atom 1; Atom 2] [];                                     (* 1: class-level list *)
+    mkobj KClass (Atom 2) [Atom 1] [(0, Ref 0); (2, BType 0); (5, Ref 1)];           (* 2: individual class *)
+    mkobj KFit (Ref 0) [Atom 100004] [];                                             (* 3: a valid fitness *)
+    mkobj KPyList (BType 0) [Atom 9] [];                                             (* 4: nested list *)
+    mkobj KPyList (BType 0) [Ref 4; Atom 3] [];                                      (* 5: strategy *)
+    mkobj KList (Ref 2) [Atom 1; Atom 0; Atom 1] [(0, Ref 3); (2, Ref 5); (7, Ref 4)] ].  (* 6: individual *)
+
+Example C16_nonvacuous :
+  deep_okb ex_heap = true /\ insideb ex_heap (Ref 6) = true /\
+  nocut (unfold is_class 3 ex_heap (Ref 6)) = true /\
+  (exists h' , deepcopy ex_heap (Ref 6) = Some (h', Ref 7) /\ length h' = 11) /\
+  (exists h', clone_chain ex_heap [Ref 6] [0; 1; 0] = Some (h', [Ref 6; Ref 7; Ref 11; Ref 15])) /\
+  (exists h', pickle_roundtrip ex_heap (Ref 6) = Some (h', Ref 10)) /\
+  (exists h', new_inst 5 ex_heap (Ref 2) [Atom 4] = Some (h', Ref 7) /\
+              nth_error h' 7 = Some (mkobj KList (Ref 2) [Atom 4] [(0, Ref 8); (2, Ref 9)])).
+Proof. vm_compute. repeat split; eexists; repeat split. Qed.
+
+(* observation outside the statement, reproduced on the implementation by the harness: an attribute stored on
+   the fitness object itself (here attribute 13) makes deep_ok false and is dropped by Fitness.__deepcopy__,
+   while pickle keeps it *)
+Definition ex_heap_fitattr : heap :=
+  [ mkobj KClass (Atom 1) [Atom 7] [(51, Atom 7000)];
+    mkobj KFit (Ref 0) [Atom 100004] [(13, Atom 5)] ].
+
+Example C16_observation_fitness_attribute :
+  deep_okb ex_heap_fitattr = false /\
+  (exists h', deepcopy ex_heap_fitattr (Ref 1) = Some (h', Ref 2) /\
+              nth_error h' 2 = Some (mkobj KFit (Ref 0) [Atom 100004] [])) /\
+  (exists h', pickle_roundtrip ex_heap_fitattr (Ref 1) = Some (h', Ref 3) /\
+              nth_error h' 3 = Some (mkobj KFit (Ref 2) [Atom 100004] [(13, Atom 5)])).
+Proof. vm_compute. repeat split; eexists; repeat split. Qed.
